@@ -64,13 +64,14 @@ func newQueue[T any](w *worker[T, iJob[T]], q IQueue) *queue[T] {
 func (q *queue[T]) Add(data T, configs ...JobConfigFunc) (EnqueuedJob, bool) {
 	j := newJob(data, loadJobConfigs(q.w.configs(), configs...))
 
+	// the status is final before the job is published: once it is in the queue the dispatcher may run it at any moment
+	j.changeStatus(queued)
 	if ok := q.internalQueue.Enqueue(j); !ok {
 		j.Close()
 		return nil, false
 	}
 
 	q.w.Metrics().incSubmitted()
-	j.changeStatus(queued)
 	q.w.notifyToPullNextJobs()
 
 	return j, true
@@ -81,13 +82,14 @@ func (q *queue[T]) AddAll(items []Item[T]) EnqueuedGroupJob {
 
 	for _, item := range items {
 		j := groupJob.newJob(item.Data, loadJobConfigs(q.w.configs(), WithJobId(item.ID)))
+		// the status is final before the job is published: once it is in the queue the dispatcher may run it at any moment
+		j.changeStatus(queued)
 		if ok := q.internalQueue.Enqueue(j); !ok {
 			j.Close()
 			continue
 		}
 
 		q.w.Metrics().incSubmitted()
-		j.changeStatus(queued)
 		q.w.notifyToPullNextJobs()
 	}
 
@@ -124,13 +126,14 @@ func newErrorQueue[T any](w *worker[T, iErrorJob[T]], q IQueue) *errorQueue[T] {
 func (q *errorQueue[T]) Add(data T, configs ...JobConfigFunc) (EnqueuedErrJob, bool) {
 	j := newErrorJob(data, loadJobConfigs(q.w.configs(), configs...))
 
+	// the status is final before the job is published: once it is in the queue the dispatcher may run it at any moment
+	j.changeStatus(queued)
 	if ok := q.internalQueue.Enqueue(j); !ok {
 		j.Close()
 		return nil, false
 	}
 
 	q.w.Metrics().incSubmitted()
-	j.changeStatus(queued)
 	q.w.notifyToPullNextJobs()
 
 	return j, true
@@ -141,13 +144,14 @@ func (q *errorQueue[T]) AddAll(items []Item[T]) EnqueuedErrGroupJob {
 
 	for _, item := range items {
 		j := groupJob.newJob(item.Data, loadJobConfigs(q.w.configs(), WithJobId(item.ID)))
+		// the status is final before the job is published: once it is in the queue the dispatcher may run it at any moment
+		j.changeStatus(queued)
 		if ok := q.internalQueue.Enqueue(j); !ok {
 			j.Close()
 			continue
 		}
 
 		q.w.Metrics().incSubmitted()
-		j.changeStatus(queued)
 		q.w.notifyToPullNextJobs()
 	}
 
@@ -183,13 +187,14 @@ func newResultQueue[T, R any](w *worker[T, iResultJob[T, R]], q IQueue) *resultQ
 func (q *resultQueue[T, R]) Add(data T, configs ...JobConfigFunc) (EnqueuedResultJob[R], bool) {
 	j := newResultJob[T, R](data, loadJobConfigs(q.w.configs(), configs...))
 
+	// the status is final before the job is published: once it is in the queue the dispatcher may run it at any moment
+	j.changeStatus(queued)
 	if ok := q.internalQueue.Enqueue(j); !ok {
 		j.Close()
 		return nil, false
 	}
 
 	q.w.Metrics().incSubmitted()
-	j.changeStatus(queued)
 	q.w.notifyToPullNextJobs()
 
 	return j, true
@@ -200,13 +205,14 @@ func (q *resultQueue[T, R]) AddAll(items []Item[T]) EnqueuedResultGroupJob[R] {
 
 	for _, item := range items {
 		j := groupJob.newJob(item.Data, loadJobConfigs(q.w.configs(), WithJobId(item.ID)))
+		// the status is final before the job is published: once it is in the queue the dispatcher may run it at any moment
+		j.changeStatus(queued)
 		if ok := q.internalQueue.Enqueue(j); !ok {
 			j.Close()
 			continue
 		}
 
 		q.w.Metrics().incSubmitted()
-		j.changeStatus(queued)
 		q.w.notifyToPullNextJobs()
 	}
 
